@@ -20,13 +20,14 @@ TraceInit == /\ tid \in 1..Len(Traces) /\ l = 1
 TMeasure == /\ l = 1 /\ l' = 2 /\ UNCHANGED tid
             /\ \E k1, k2 \in 1..1 : Measure(<<k1, k2>>)
             /\ SameDir3(acc', T3(Traces[tid].acc)) /\ SameDir3(mag', T3(Traces[tid].mag))
-            /\ WellPosed'
 TEstimate == /\ l = 2 /\ l' = 3 /\ UNCHANGED tid
              /\ Estimate /\ out' = T4(Traces[tid].out)
-             /\ WellPosed' /\ Recovers'            \* invariants as guards (a violated INVARIANT would stop the whole batch)
 TraceNext == TMeasure \/ TEstimate
 TraceSpec == TraceInit /\ [][TraceNext]_tvars
-Progress == LET f == TLCGet(1) IN IF f[tid] < l THEN TLCSet(1, [f EXCEPT ![tid] = l]) ELSE TRUE
+(* a state that violates an invariant is pruned and does not count as progress (an INVARIANT in the cfg would stop
+   the whole batch at the first violation; priming the invariants into the actions is an order of magnitude slower) *)
+TraceInv == WellPosed /\ Recovers
+Progress == TraceInv /\ (LET f == TLCGet(1) IN IF f[tid] < l THEN TLCSet(1, [f EXCEPT ![tid] = l]) ELSE TRUE)
 Accepted == LET f == TLCGet(1) IN
             \A t \in 1..Len(Traces) : \/ f[t] = 3
                                       \/ PrintT(<<"REJECTED", t, f[t]>>) /\ FALSE
